@@ -9,6 +9,7 @@ import (
 	"encoding/binary"
 	"encoding/hex"
 	"fmt"
+	mbits "math/bits"
 	"math/rand"
 	"os"
 	"path/filepath"
@@ -1344,6 +1345,52 @@ func bitvecCase(c *core.Ctx, r *rand.Rand, idx int) {
 	c.Op("bvranklut", showU32(v.RankLut()))
 	c.Op("bvsellut", showU32(v.SelectLut()))
 	n := len(all)
+	// select inside one word: the words of this vector, and directed ones (one bit per byte, full bytes,
+	// a single top / bottom bit, bits around the byte boundaries), ranks 1, popcount, around multiples of 8
+	{
+		var ws []uint64
+		for j := 0; j*64 < n && j < 4; j++ {
+			var w uint64
+			for q := 0; q < 64 && j*64+q < n; q++ {
+				if all[j*64+q] {
+					w |= 1 << uint(q)
+				}
+			}
+			ws = append(ws, w)
+		}
+		ws = append(ws, []uint64{1, 1 << 63, 0x8000000000000001, 0x0101010101010101, 0x8080808080808080,
+			0xffffffffffffffff, 0xff00ff00ff00ff00, 0x00000000000180, r.Uint64(), r.Uint64() & r.Uint64(), r.Uint64() | r.Uint64()}...)
+		for _, w := range ws {
+			pc := mbits.OnesCount64(w)
+			if pc == 0 {
+				continue
+			}
+			for _, k := range []int{1, pc, 1 + r.Intn(pc), (pc / 8) * 8, (pc/8)*8 + 1} {
+				if k < 1 || k > pc {
+					continue
+				}
+				var got int64
+				c.Guard(fmt.Sprintf("sel64 %016x %d", w, k), func() string {
+					got = trie.VerifSelect64(w, int64(k))
+					return strconv.Itoa(int(got))
+				})
+				bw := trie.VerifSelect64Broadword(w, int64(k))
+				want, cnt := -1, 0
+				for q := 0; q < 64; q++ {
+					if w>>uint(q)&1 == 1 {
+						cnt++
+						if cnt == k {
+							want = q
+							break
+						}
+					}
+				}
+				if int(got) != want || int(bw) != want {
+					c.Fail("select64-mismatch", fmt.Sprintf("select64(%016x,%d)=%d broadword=%d, the %d-th set bit is at %d", w, k, got, bw, k, want))
+				}
+			}
+		}
+	}
 	for i := 0; i < 14; i++ {
 		pos := r.Intn(n)
 		switch i {
@@ -2401,6 +2448,29 @@ func witnessCase(c *core.Ctx, i int) {
 		k := trie.VerifConsts()
 		c.Op("consts", fmt.Sprintf("labelTerminator=%d wordSize=%d rankSparseBlockSize=%d selectSampleInterval=%d",
 			k["labelTerminator"], k["wordSize"], k["rankSparseBlockSize"], k["selectSampleInterval"]))
+		// bits.go: the select-in-byte table as filled by init()
+		lut := trie.VerifSelectInByteLut()
+		flat := make([]uint32, 0, 2048)
+		for b := 0; b < 256; b++ {
+			for j := 0; j < 8; j++ {
+				flat = append(flat, uint32(lut[b][j]))
+				// the j-th (zero-based) set bit of b, or 8
+				want, cnt := 8, 0
+				for q := 0; q < 8; q++ {
+					if b>>uint(q)&1 == 1 {
+						if cnt == j {
+							want = q
+							break
+						}
+						cnt++
+					}
+				}
+				if int(lut[b][j]) != want {
+					c.Fail("select-byte-table", fmt.Sprintf("selectInByteLut[%d][%d]=%d want %d", b, j, lut[b][j], want))
+				}
+			}
+		}
+		c.Op("sellut", showU32(flat))
 		c.NonTrivial()
 	case 1: // Build of the key set {""}: index out of range in buildNodes
 		keys, vals := [][]byte{{}}, []uint32{7}
